@@ -34,7 +34,8 @@ theorem reach_eq_run (cfg : Cfg) (W : World) (h : List Step) : Spec.reach (deplo
 
 /-- the tree's shape: entries age from the call token, the hit branch keeps the method check (what the call token's
     AAD enforces on a miss) and the declared-type check -/
-def Repaired (sh : Shape) : Prop := sh.missAnchor = .created ∧ sh.hitChecksType = true ∧ sh.hitChecksMethod = true
+def Repaired (sh : Shape) : Prop :=
+  sh.missAnchor = .created ∧ sh.hitChecksType = true ∧ sh.hitChecksMethod = true ∧ sh.hitRefreshes = false
 
 /-- the control flow the model transliterates is the control flow extraction recognised in the source -/
 theorem shapes_recognised :
@@ -44,7 +45,7 @@ theorem shapes_recognised :
   decide
 
 /-- the source tree under test has the repaired shape -/
-theorem tree_repaired : Repaired Gen.C14.shape := ⟨by decide, by decide, by decide⟩
+theorem tree_repaired : Repaired Gen.C14.shape := ⟨by decide, by decide, by decide, by decide⟩
 
 /-- **cache invariant**: after any history every entry `(cid, ident) ↦ rc` of every worker's cache holds the call minted
     under `cid`, and `ident` is the identity key of that call's owner -/
@@ -88,8 +89,10 @@ theorem lru_bound (cfg : Cfg) (htps : 0 < cfg.tps) (caps : List Nat) (t0 : Nat) 
   have := (run_inv htps h _ (start_inv cfg caps t0)).caches ch hch
   exact ⟨this.2.2, this.2.1⟩
 
-/-- **expiry alignment** (repaired shape): a live cache entry never outlives the call token it stands in for -/
+/-- **expiry alignment** (entries age from the token, a hit leaves the expiry alone): a live cache entry never outlives
+    the call token it stands in for -/
 theorem cache_expiry_aligned (cfg : Cfg) (htps : 0 < cfg.tps) (hm : cfg.shape.missAnchor = .created)
+    (hr : cfg.shape.hitRefreshes = false)
     (caps : List Nat) (t0 : Nat) (h : List Step) :
     let W := run cfg (World.start caps t0) h
     ∀ ch ∈ W.caches, ∀ e ∈ ch.entries, Gen.C14.entryDead e.expires W.now = false →
@@ -98,7 +101,7 @@ theorem cache_expiry_aligned (cfg : Cfg) (htps : 0 < cfg.tps) (hm : cfg.shape.mi
   obtain ⟨cl, h1, _, _, hb⟩ := ((run_inv htps h _ (start_inv cfg caps t0)).caches ch hch).1 e he
   refine ⟨cl, h1, ?_⟩
   by_cases httl : 0 < cfg.ttl
-  · exact live_entry_fresh cfg W.now e.expires cl.created hlive (hb hm httl)
+  · exact live_entry_fresh cfg W.now e.expires cl.created hlive (hb hm hr httl)
   · have : cfg.ttl = 0 := by omega
     rw [this]; exact tokenExpired_ttl0 _ _
 
@@ -107,7 +110,7 @@ theorem transparent_model (cfg : Cfg) (htps : 0 < cfg.tps) (hsh : Repaired cfg.s
     (serveCont cfg (run cfg (World.start caps t0) h) w rq).2
       = (serveCont cfg (run cfg (World.start caps t0) h).emptied w rq).2 := by
   rw [cold_emptied]
-  exact warm_cold (run_inv htps h _ (start_inv cfg caps t0)) w rq hecho (hitSafe_of_repaired w rq hsh.1 hsh.2.1 hsh.2.2)
+  exact warm_cold (run_inv htps h _ (start_inv cfg caps t0)) w rq hecho (hitSafe_of_repaired w rq hsh.1 hsh.2.1 hsh.2.2.1 hsh.2.2.2)
 
 /-- transparency for any configuration of the repaired shape -/
 theorem transparent_of_repaired (cfg : Cfg) (htps : 0 < cfg.tps) (hsh : Repaired cfg.shape) :
@@ -166,7 +169,7 @@ theorem nonconforming_model (cfg : Cfg) (hrep : Repaired cfg.shape) (W : World) 
   | error r =>
     exact Or.inl (miss_cold cfg W w rq (fun c hc => by rw [hopen] at hc; exact absurd hc (by simp)))
   | ok c =>
-    rcases hg : (W.cache w).get c.cid (identKey rq.ident) W.now with ⟨cache1, _ | rc⟩
+    rcases hg : (W.cache w).get c.cid (identKey rq.ident) W.now (hitRefresh cfg W.now) with ⟨cache1, _ | rc⟩
     · left
       apply miss_cold
       intro c' hc'
@@ -180,7 +183,7 @@ theorem nonconforming_model (cfg : Cfg) (hrep : Repaired cfg.shape) (W : World) 
       have hopen' : openCursor cfg W (echoed W rq) = .ok c := by
         rw [openCursor_congr cfg W rq (echoed W rq) f1 f3]; exact hopen
       exact hit_cold hinv w (echoed W rq) (echoed_echo W rq)
-        (hitSafe_of_repaired w (echoed W rq) hrep.1 hrep.2.1 hrep.2.2) c rc cache1 hopen' (by rw [f1]; exact hg)
+        (hitSafe_of_repaired w (echoed W rq) hrep.1 hrep.2.1 hrep.2.2.1 hrep.2.2.2) c rc cache1 hopen' (by rw [f1]; exact hg)
 
 /-- **C14, requests that do not echo the call token** (repaired shape): answered as a cold worker answers them, or as a
     cold worker answers the conforming request — the cache never invents a third outcome -/
